@@ -377,7 +377,7 @@ def make_step(rec, env, cfg):
         probe_charerr = []
 
         def bad(k, what):
-            if (charerr or probe_charerr) and k.split("-")[0] in ("Q1", "Q2", "Q3", "I3", "I1", "I4"):
+            if (charerr or probe_charerr) and k.split("-")[0] in ("Q1", "Q2", "Q3", "I3", "I1", "I4", "discarded"):
                 rec.violation(SIG_CHAR, "cfg %s history %s: %s: %s\nledger of the last op: %s" % (
                     list(cfg), names, k, what, [repr(c) for c in sl][:30]), case, kind="char-reset-slot-loss")
                 rec.count("char_reset_findings")
